@@ -5,11 +5,16 @@
     and the returned cursor, in source order, each once; cursors move forward only and rest
     on non-trivia tokens ([yield]); for the oal grammar the leaves of the program tree are
     the non-trivia tokens of the parsed prefix. A node's span in grammar.rs is computed from
-    its first and last leaf, so it is the hull of its leaves by construction. Carried by the
-    monitor on the real tokenizer (logos-generated, not modelled): tokens and lexical-error
-    spans tile the text on character boundaries, token values are source slices, diagnostic
-    spans lie in the text. *)
-From Oal Require Import Peg Grammar PegProofs PegYield GrammarProofs.
+    its first and last leaf, so it is the hull of its leaves by construction. The tokenizer
+    is modelled for texts without lexical errors ([Lexer.tokenize]: maximal munch over the 54
+    token patterns, tied to the logos-generated automaton by the correspondence check): when
+    a text tokenizes, the tokens are non-empty, their spans are consecutive from 0 to the
+    UTF-8 length of the text, and every span bound is the UTF-8 length of a prefix of the
+    text, i.e. a character boundary ([C11_tokens_tile], [C11_token_spans_tile],
+    [C11_token_spans_on_boundaries]). Carried by the monitor on the real tokenizer: the
+    extent of lexical-error spans (they depend on the generated automaton and are not
+    modelled), token values are source slices, diagnostic spans lie in the text. *)
+From Oal Require Import Text Lexer LexerProofs Peg Grammar PegProofs PegYield GrammarProofs.
 Local Open Scope nat_scope.
 
 Theorem C11_yield :
@@ -31,3 +36,29 @@ Theorem C11_leaves_in_source_order :
   forall a b, nth_error (ntriv is_trivia toks s e) i = Some a -> nth_error (ntriv is_trivia toks s e) j = Some b -> a < b.
 Proof. exact ntriv_sorted. Qed.
 Print Assumptions C11_leaves_in_source_order.
+
+(** tokenizer: the tokens of a text without lexical error tile it *)
+Theorem C11_tokens_tile : forall t toks, tokenize t = Some toks ->
+  Forall (fun kn => 1 <= snd kn) toks /\ total toks = length t /\ length toks <= length t.
+Proof. exact tokenize_tiles. Qed.
+Print Assumptions C11_tokens_tile.
+
+Theorem C11_token_spans_tile : forall t toks, tokenize t = Some toks ->
+  chain 0 (spans toks t 0) (len8s t).
+Proof. exact tokenize_spans_tile. Qed.
+Print Assumptions C11_token_spans_tile.
+
+Theorem C11_token_spans_on_boundaries : forall t toks k a b, tokenize t = Some toks ->
+  In (k, a, b) (spans toks t 0) ->
+  exists p1 p2 q, t = p1 ++ p2 ++ q /\ a = len8s p1 /\ b = len8s (p1 ++ p2).
+Proof. exact tokenize_spans_on_boundaries. Qed.
+Print Assumptions C11_token_spans_on_boundaries.
+
+(** the fuel [tokenize] passes to [lex] is never the reason for an error answer *)
+Theorem C11_tokenizer_fuel_irrelevant : forall f1 f2 t, length t <= f1 -> length t <= f2 -> lex f1 t = lex f2 t.
+Proof. exact lex_fuel. Qed.
+Print Assumptions C11_tokenizer_fuel_irrelevant.
+
+Example C11_tokenizer_nonvacuous : option_map (fun toks => spans toks ex_text 0%N) (tokenize ex_text)
+  = Some [(20, 0, 3); (0, 3, 4); (26, 4, 5); (0, 5, 6); (48, 6, 7); (0, 7, 8); (29, 8, 15); (40, 15, 16)]%N.
+Proof. exact ex_tokenizes. Qed.
